@@ -15,3 +15,4 @@ import TeosVerif.Props.C05
 #print axioms Teos.C05.tidy_run
 #print axioms Teos.C05.exactly_one_at_stable_points
 #print axioms Teos.C05.record_call_sites_are_the_modelled_ones
+#print axioms Teos.C05.the_retrier_records_before_it_releases
